@@ -8,6 +8,6 @@ for seed in ${SWEEP_SEEDS:-2 3 4 5 6}; do
   for p in ${SWEEP_PROPS:-C01 C02 C03 C04 C05 C06 C07 C08 C09 C10 C11 C12 C13 C14 C15 C16 C17 C18 C19 C20}; do
     VERIF_SEED=$seed ./check $p ${SWEEP_TIER:-quick} > .sweep-$p-$seed.log 2>&1; rc=$?
     echo "seed=$seed $p rc=$rc $(tail -1 .sweep-$p-$seed.log | cut -c1-140)"
-    [ $rc -ne 0 ] && grep "VIOLATION" .sweep-$p-$seed.log | head -3
+    if [ $rc -ne 0 ]; then grep "VIOLATION" .sweep-$p-$seed.log | head -3; fi
   done
 done
